@@ -214,13 +214,13 @@ Section CacheLayer.
   Lemma lookupAll_valid_res c req p : CV c -> snd (all' c req p) = u_lookupAll req p.
   Proof.
     intros (_ & H & _). unfold lookupAll.
-    destruct (aget mkey_eqb (c_mcache c) (p, req)) as [r|] eqn:E; cbn; [symmetry; eauto | reflexivity].
+    destruct (aget mkey_eqb (c_mcache c) (p, req)) as [r|] eqn:E; cbn; [eauto | reflexivity].
   Qed.
 
   Lemma subscriptions_valid_res c req p : CV c -> snd (subs' c req p) = u_subscriptions req p.
   Proof.
     intros (_ & _ & H). unfold subscriptions.
-    destruct (aget sckey_eqb (c_scache c) (p, req)) as [r|] eqn:E; cbn; [symmetry; eauto | reflexivity].
+    destruct (aget sckey_eqb (c_scache c) (p, req)) as [r|] eqn:E; cbn; [eauto | reflexivity].
   Qed.
 
   (* ---- validity: empty, preserved by every entry point *)
@@ -353,7 +353,7 @@ Lemma leaf_update_spec prefix e m : NoDup (map fst m) -> forall acc n,
 Proof.
   induction m as [|[[[r p] n0] v] m IH]; intros Hnd acc n; cbn [fold_left aget]; [reflexivity|].
   inversion Hnd as [|? ? Hn Hd]; subst. rewrite IH by exact Hd.
-  unfold leaf_update at 2. cbn [fst snd akey_eqb].
+  unfold leaf_update. cbn [fst snd akey_eqb].
   destruct (aget akey_eqb m (prefix, e, n)) as [v'|] eqn:E.
   - (* a later entry with the same key would contradict uniqueness, unless this one differs *)
     destruct (lspec_eqb prefix r && Nat.eqb e p && Nat.eqb n n0) eqn:E1; [|reflexivity].
@@ -479,12 +479,145 @@ Qed.
 Lemma adapters_wf_rebuild W r : adapters_wf (rebuild W r).
 Proof.
   unfold rebuild.
-  set (r0 := changed _).
-  assert (H0 : adapters_wf r0) by constructor.
-  set (r1 := fold_left _ (allRegistrations r) r0).
-  assert (H1 : adapters_wf r1).
-  { subst r1. revert H0. generalize r0. induction (allRegistrations r) as [|[[[rq p] n] v] l IH]; intros x Hx; cbn; [exact Hx|].
+  assert (HA : forall l x, adapters_wf x ->
+            adapters_wf (fold_left (fun acc (kv : akey * value) =>
+                                      let '(req, p, n) := fst kv in
+                                      register W acc (map Some req) p n (Some (snd kv))) l x)).
+  { induction l as [|[[[rq p] n] v] l IH]; intros x Hx; cbn [fold_left fst snd]; [exact Hx|].
     apply IH, adapters_wf_register, Hx. }
-  revert H1. generalize r1. induction (allSubscriptions r) as [|kv l IH]; intros x Hx; cbn; [exact Hx|].
-  apply IH. unfold adapters_wf. rewrite adapters_subscribe. exact Hx.
+  assert (HS : forall l x, adapters_wf x ->
+            adapters_wf (fold_left (fun acc (kv : skey * value) =>
+                                      subscribe W acc (map Some (fst (fst kv))) (snd (fst kv)) (snd kv)) l x)).
+  { induction l as [|kv l IH]; intros x Hx; cbn [fold_left]; [exact Hx|].
+    apply IH. unfold adapters_wf. rewrite adapters_subscribe. exact Hx. }
+  apply HS, HA. constructor.
+Qed.
+
+(* ------------------------------------------------------------------ ... and in every registry
+   of every reachable system of registries (Model/RegSys.v), whatever the history *)
+From ZI Require Import Model.RegSys.
+
+Definition sys_wf (s : sys) : Prop := Forall (fun x => adapters_wf (rs_reg x)) s.
+
+Lemma get_wf s r : sys_wf s -> adapters_wf (rs_reg (get s r)).
+Proof.
+  intros H. unfold get. destruct (nth_in_or_default r s dummy_rs) as [Hin|Hd]; [|rewrite Hd; constructor].
+  unfold sys_wf in H. rewrite Forall_forall in H. apply H, Hin.
+Qed.
+
+Lemma set_wf s : forall r x, sys_wf s -> adapters_wf (rs_reg x) -> sys_wf (set s r x).
+Proof.
+  induction s as [|y s IH]; intros r x H Hx; cbn [set]; [constructor|].
+  inversion H; subst. destruct r; constructor; auto. apply IH; auto.
+Qed.
+
+Lemma upd_wf s r f : sys_wf s -> (forall y, adapters_wf (rs_reg y) -> adapters_wf (rs_reg (f y))) ->
+  sys_wf (upd s r f).
+Proof. intros H Hf. unfold upd. apply set_wf; [exact H|]. apply Hf, get_wf, H. Qed.
+
+Lemma fold_wf {A} (g : sys -> A -> sys) (l : list A) :
+  (forall s x, sys_wf s -> sys_wf (g s x)) -> forall s, sys_wf s -> sys_wf (fold_left g l s).
+Proof. intros Hg. induction l as [|x l IH]; intros s H; cbn [fold_left]; auto. Qed.
+
+Lemma refresh_ro_wf fuel : forall s r, sys_wf s -> sys_wf (refresh_ro fuel s r).
+Proof.
+  induction fuel as [|f IH]; intros s r H; cbn [refresh_ro].
+  - apply set_wf; [exact H|]. cbn [rs_reg]. apply get_wf, H.
+  - assert (H1 : sys_wf (set s r (mkRS (rs_reg (get s r)) (rs_caches (get s r)) (rs_bases (get s r)) (fresh_ro s r)
+                                       (rs_subs (get s r)) (rs_vro (get s r)) (rs_vgen (get s r)) (rs_flavour (get s r)))))
+      by (apply set_wf; [exact H|]; cbn [rs_reg]; apply get_wf, H).
+    destruct (rs_flavour (get s r)); [|exact H1].
+    apply fold_wf; [|exact H1]. intros s' x Hs'. apply IH, Hs'.
+Qed.
+
+Lemma lookup_changed_wf b s r : sys_wf s -> sys_wf (lookup_changed b s r).
+Proof.
+  intros H. unfold lookup_changed. destruct (rs_flavour (get s r)).
+  - apply set_wf; [exact H|]. cbn [rs_reg]. apply get_wf, H.
+  - destruct b; cbv beta iota zeta;
+      (apply set_wf; [try apply refresh_ro_wf; exact H | cbn [rs_reg]; apply get_wf; try apply refresh_ro_wf; exact H]).
+Qed.
+
+Lemma changed_wf g : adapters_wf g -> adapters_wf (changed g).
+Proof. exact (fun H => H). Qed.
+
+Lemma bump_wf s r : sys_wf s -> sys_wf (upd s r bump).
+Proof. intros H. apply upd_wf; [exact H|]. intros y Hy. exact Hy. Qed.
+
+Lemma sub_changed_wf fuel : forall s r, sys_wf s -> sys_wf (sub_changed fuel s r).
+Proof.
+  induction fuel as [|f IH]; intros s r H; cbn [sub_changed].
+  - apply lookup_changed_wf, bump_wf, H.
+  - assert (H1 : sys_wf (lookup_changed false (upd s r bump) r)) by apply lookup_changed_wf, bump_wf, H.
+    destruct (rs_flavour _); [|exact H1].
+    apply fold_wf; [|exact H1]. intros s' x Hs'. apply IH, Hs'.
+Qed.
+
+Lemma after_bump_wf s r : sys_wf s -> sys_wf (after_bump s r).
+Proof.
+  intros H. unfold after_bump.
+  assert (H1 : sys_wf (lookup_changed false s r)) by apply lookup_changed_wf, H.
+  destruct (rs_flavour _); [|exact H1].
+  apply fold_wf; [|exact H1]. intros s' x Hs'. apply sub_changed_wf, Hs'.
+Qed.
+
+Lemma mutate_wf s r f : (forall g, adapters_wf g -> adapters_wf (f g)) -> sys_wf s -> sys_wf (mutate s r f).
+Proof.
+  intros Hf H. unfold mutate. destruct (Nat.eqb _ _); [exact H|].
+  apply after_bump_wf, set_wf; [exact H|]. cbn [rs_reg]. apply Hf, get_wf, H.
+Qed.
+
+Lemma set_bases_wf s r bs : sys_wf s -> sys_wf (set_bases s r bs).
+Proof.
+  intros H. unfold set_bases.
+  apply after_bump_wf, bump_wf, refresh_ro_wf, upd_wf; [|intros y Hy; exact Hy].
+  destruct (rs_flavour (get s r)); [|exact H].
+  apply fold_wf; [|apply fold_wf; [|exact H]]; intros s' b Hs'; destruct (mem b _); try exact Hs';
+    (apply upd_wf; [exact Hs' | intros y Hy; exact Hy]).
+Qed.
+
+Lemma new_reg_wf s fl bs : sys_wf s -> sys_wf (new_reg s fl bs).
+Proof.
+  intros H. unfold new_reg. apply set_bases_wf. unfold sys_wf. apply Forall_app. split; [exact H|].
+  constructor; [constructor | constructor].
+Qed.
+
+Lemma verify_wf s r : sys_wf s -> sys_wf (verify s r).
+Proof.
+  intros H. unfold verify. destruct (rs_flavour _); [exact H|].
+  destruct (lspec_eqb _ _); [exact H | apply lookup_changed_wf, H].
+Qed.
+
+Lemma with_lookup_wf {A} W s r f : sys_wf s -> sys_wf (fst (@with_lookup W A s r f)).
+Proof.
+  intros H. unfold with_lookup. destruct (f _ _ _ _) as [c' a]. cbn [fst].
+  apply upd_wf; [apply verify_wf, H|]. intros y Hy. exact Hy.
+Qed.
+
+Lemma step_wf W call s o : sys_wf s -> sys_wf (fst (step W call s o)).
+Proof.
+  intros H. destruct o; cbn [step fst];
+    try (match goal with |- context [with_lookup ?W ?s ?r ?f] =>
+           pose proof (with_lookup_wf W s r f H) as HW; destruct (with_lookup W s r f); exact HW end);
+    try exact H.
+  - apply new_reg_wf, H.
+  - apply set_bases_wf, H.
+  - apply mutate_wf; [intros g; apply adapters_wf_register | exact H].
+  - apply mutate_wf; [intros g; apply adapters_wf_unregister | exact H].
+  - apply mutate_wf; [|exact H]. intros g Hg. unfold adapters_wf. rewrite adapters_subscribe. exact Hg.
+  - apply mutate_wf; [|exact H]. intros g Hg. unfold adapters_wf. rewrite adapters_unsubscribe. exact Hg.
+  - apply after_bump_wf, set_wf; [exact H|]. cbn [rs_reg]. apply adapters_wf_rebuild.
+Qed.
+
+Theorem reachable_sys_wf W call ops : sys_wf (final W call [] ops).
+Proof.
+  unfold final. assert (H : sys_wf []) by constructor. revert H. generalize (@nil rstate).
+  induction ops as [|o ops IH]; intros s H; cbn [fold_left]; [exact H|]. apply IH, step_wf, H.
+Qed.
+
+(* the registries a lookup of registry r walks *)
+Lemma ro_regs_wf s r : sys_wf s -> Forall adapters_wf (ro_regs s r).
+Proof.
+  intros H. unfold ro_regs. apply Forall_forall. intros x Hx. apply in_map_iff in Hx.
+  destruct Hx as (i & <- & _). apply get_wf, H.
 Qed.
